@@ -52,7 +52,7 @@ theorem used_takeRest : ∀ b : B, used (takeRest b) = 0
   | .map _ _ _ _ ks vs => by simp [takeRest, used, lastNat_zero, used_takeRest ks, used_takeRest vs]
   | .struct _ _ _ fs _ _ _ => by simp [takeRest, used, usedL_takeRestAll fs]
   | .dictionary _ _ vals _ => by simp [takeRest, used, used_takeRest vals]
-  | .union _ fs _ _ _ => by simp [takeRest, used, usedL_takeRestAll fs]
+  | .union _ fs _ _ cur => by simp [takeRest, used, usedL_takeRestAll fs, curUsed_zeros]
 theorem usedL_takeRestAll : ∀ bl : BL, usedL (takeRestAll bl) = 0
   | .nil => by simp [takeRestAll, usedL]
   | .cons b _ r => by simp [takeRestAll, usedL, used_takeRest b, usedL_takeRestAll r]
